@@ -195,6 +195,9 @@ func traverse7(ss *micro.StreamOfStates, budget int) ([]snap7, bool) {
 		car, cdr := ss.CarCdr()
 		if car != nil {
 			out = append(out, snap7{car, snapMicro(car)})
+			if len(out) > 300 { // a stream that has become cyclic must not hang the harness
+				return out, false
+			}
 		}
 		ss = cdr
 	}
@@ -255,6 +258,48 @@ func checkMicroGoal(rep *Report, i int, desc string, mk func() micro.Goal, st0 *
 		rep.violate(i, "input-state-changed", desc, fmt.Sprintf("the start state showed %s before and shows %s after the re-runs", snap0, now))
 	}
 	return fmt.Sprintf("%d answer(s)%s: %s", len(first), map[bool]string{true: "", false: " (budget)"}[closed], showSnaps(first))
+}
+
+// checkStreamValues: streams are values too.  A stream handed to micro.Mplus / micro.Bind (directly, or by a goal that
+// returns a stream it kept) still denotes the same sequence afterwards, and merging the same two streams twice gives the
+// same result.
+func checkStreamValues(rep *Report, i int, desc string, g1, g2, g3 func() micro.Goal, st0 *micro.State, budget int) {
+	show := func(ss *micro.StreamOfStates) string {
+		xs, closed := traverse7(ss, budget)
+		return fmt.Sprintf("%s%s", showSnaps(xs), map[bool]string{true: "", false: " ..."}[closed])
+	}
+	ref1, ref2 := show(g1()(st0)), show(g2()(st0))
+	s1, s2 := g1()(st0), g2()(st0)
+	m := micro.Mplus(s1, s2)
+	tm := show(m)
+	if now := show(s1); now != ref1 {
+		rep.violate(i, "stream-argument-changed", desc, fmt.Sprintf("the first argument of Mplus denoted %s before the merge and %s after it", ref1, now))
+	}
+	if now := show(s2); now != ref2 {
+		rep.violate(i, "stream-argument-changed", desc, fmt.Sprintf("the second argument of Mplus denoted %s before the merge and %s after it", ref2, now))
+	}
+	if again := show(micro.Mplus(s1, s2)); again != tm {
+		rep.violate(i, "second-merge-differs", desc, fmt.Sprintf("Mplus of the same two streams gave %s the first time and %s the second time", tm, again))
+	}
+	b := micro.Bind(s1, g3())
+	tb := show(b)
+	if now := show(s1); now != ref1 {
+		rep.violate(i, "stream-argument-changed", desc, fmt.Sprintf("the stream given to Bind denoted %s before and %s after", ref1, now))
+	}
+	if again := show(micro.Bind(s1, g3())); again != tb {
+		rep.violate(i, "second-bind-differs", desc, fmt.Sprintf("Bind of the same stream gave %s the first time and %s the second time", tb, again))
+	}
+	// a goal that hands out a stream it kept (tabling): used in both branches of a disjunction
+	kept := g1()(st0)
+	table := func(*micro.State) *micro.StreamOfStates { return kept }
+	d1 := show(micro.Disj(table, g2())(st0))
+	d2 := show(micro.Disj(table, g2())(st0))
+	if d1 != d2 {
+		rep.violate(i, "rerun-differs", desc, fmt.Sprintf("a disjunction over a kept stream gave %s, then %s", d1, d2))
+	}
+	if now := show(kept); now != ref1 {
+		rep.violate(i, "stream-argument-changed", desc, fmt.Sprintf("a stream kept by the caller denoted %s before it was used in a disjunction and %s after", ref1, now))
+	}
 }
 
 // siblingProg: k conjuncts binding query variables, then a disjunction of siblings each adding one more binding.
@@ -440,6 +485,17 @@ func runC07(cfg *Config) *Report {
 			}
 			begin(i, desc)
 			obs = checkMicroGoal(rep, i, desc, mk, st0, 40)
+			if !conc {
+				pgs := &progGen{r: sub, allowNon: true, rels: pg.rels}
+				gA, gB, gC := g, pgs.goal(1+sub.Intn(5), nq), pgs.goal(1+sub.Intn(3), nq)
+				if sub.Intn(3) == 0 {
+					gA = gEq(ptB(0), ptAtom(pick(sub, progAtoms))) // a one-answer stream
+				}
+				sdesc := fmt.Sprintf("streams as values: s1 = %s, s2 = %s on %s; Mplus(s1,s2), Bind(s1, %s), a kept s1 in a disjunction", gA.show(), gB.show(), snapMicro(st0), gC.show())
+				checkStreamValues(rep, i, sdesc, func() micro.Goal { return build(gA, env) }, func() micro.Goal { return build(gB, env) },
+					func() micro.Goal { return build(gC, env) }, st0, 25)
+				rep.hist("micro streams as values")
+			}
 			cf.add(c07Skip)
 			if strings.Contains(desc, "disj") || strings.Contains(desc, "conde") || strings.Contains(desc, "Disj") {
 				rep.nontrivial(desc)
